@@ -43,6 +43,7 @@ class _State:
         self._side_ids = set()
         self.memo = {}               # (kind, operand ids) -> (refs, result, constraint)
         self.uf_apps = {}            # ufname -> list of (args, result) seen on this path
+        self.symtext = False         # symbolic text tokens (symfl.tokens) may reach array()/to_float
         self.tokens = {}             # placeholder text -> SymFloat
         self.token_of = {}           # id(z3 ast) -> placeholder
         self.fresh = itertools.count()
